@@ -15,64 +15,6 @@ open Lumina.Proofs.Nmt Lumina.Proofs.NmtRange Lumina.Proofs.Eds Lumina.Proofs.Sa
 def ProofOK (p : NsProof) : Prop :=
   (∀ x ∈ p.siblings, x.WF) ∧ (∀ l, p.leaf = some l → l.WF) ∧ p.start ≤ U32_MAX ∧ p.end_ ≤ U32_MAX
 
-/-- `root.contains ns` in terms of the leaves (sorted leaf hashes, idealised hash) -/
-theorem contains_char {H : HashFn} (hk : HashOK H) {L : List NsHash} {root : NsHash} {ns : Bytes}
-    (hne : L ≠ []) (al : AllLeaf H L) (hs : SortedNs L) (hroot : computeRoot H true L = .ok root)
-    (hns : ns.length = NS_SIZE) :
-    root.contains H ns = true ↔
-      (∃ x ∈ L, leB x.minNs ns = true) ∧
-      ((∀ x ∈ L, x.minNs = maxNsId) ∨ ∃ x ∈ L, x.minNs ≠ maxNsId ∧ leB ns x.minNs = true) := by
-  have R := computeRoot_range hne (AllLeaf.leafNs al) hs hroot
-  have hnotempty : root.isEmptyRoot H = false := by
-    unfold NsHash.isEmptyRoot
-    have := computeRoot_ne_empty hk hne al hroot
-    simpa using this
-  unfold NsHash.contains
-  simp only [hnotempty, Bool.not_false, Bool.and_true, Bool.and_eq_true]
-  constructor
-  · rintro ⟨h1, h2⟩
-    refine ⟨?_, ?_⟩
-    · obtain ⟨x, hx, hxe⟩ := R.minMem
-      exact ⟨x, hx, by rw [← hxe]; exact h1⟩
-    · by_cases hall : ∀ x ∈ L, x.minNs = maxNsId
-      · exact Or.inl hall
-      · right
-        have hex : ∃ x ∈ L, x.minNs ≠ maxNsId := by
-          apply Classical.byContradiction
-          intro hno
-          apply hall
-          intro x hx
-          apply Classical.byContradiction
-          intro hne'
-          exact hno ⟨x, hx, hne'⟩
-        obtain ⟨y, hy, hyn, hyl⟩ := R.maxMemNon hex
-        exact ⟨y, hy, hyn, leB_trans h2 hyl⟩
-  · rintro ⟨⟨x, hx, hxl⟩, h2⟩
-    refine ⟨leB_trans (R.minLe x hx) hxl, ?_⟩
-    rcases h2 with hall | ⟨y, hy, hyn, hyl⟩
-    · rw [R.maxAll hall]; exact leB_maxNsId NS_SIZE ns hns
-    · exact leB_trans hyl (R.maxGe y hy hyn)
-
-/-- equal leaf-hash lists for one namespace have equal data -/
-theorem map_hashLeaf_data {H : HashFn} (hk : HashOK H) {ns : Bytes} : ∀ {l : List Share} {ds : List Bytes},
-    (∀ sh ∈ l, sh.ns = ns) → l.map (Share.leafHash H) = ds.map (hashLeaf H ns) → l.map Share.data = ds := by
-  intro l
-  induction l with
-  | nil => intro ds _ h; cases ds with
-    | nil => rfl
-    | cons a t => simp at h
-  | cons a t ih =>
-    intro ds hn h
-    cases ds with
-    | nil => simp at h
-    | cons d dt =>
-      simp only [List.map_cons, List.cons.injEq] at h ⊢
-      refine ⟨?_, ih (fun s hs => hn s (by simp [hs])) h.2⟩
-      have h1 := h.1
-      unfold Share.leafHash at h1
-      rw [hn a (by simp)] at h1
-      exact (hashLeaf_inj hk rfl (congrArg NsHash.hash h1)).2
-
 /-- facts about a row of a square whose DAH exists -/
 theorem row_facts {H : HashFn} {e : Eds} {dah : Dah} (hd : Dah.ofEds H e = .ok dah)
     (hsz : ∀ sh ∈ e.shares, NS_SIZE ≤ sh.data.length) {row : Nat} (hrow : row < e.width) :
@@ -110,103 +52,11 @@ theorem row_facts {H : HashFn} {e : Eds} {dah : Dah} (hd : Dah.ofEds H e = .ok d
   obtain ⟨y, hy, rfl⟩ := List.mem_map.mp hx
   exact ⟨y.ns, y.data, share_ns_length (hsz y (hmem y hy)), rfl⟩
 
-/-- **soundness of `RowNamespaceData::verify`** for a row whose root range covers the namespace -/
-theorem rowVerify_sound {H : HashFn} (hk : HashOK H) {e : Eds} {dah : Dah} (hd : Dah.ofEds H e = .ok dah)
-    (hsz : ∀ sh ∈ e.shares, NS_SIZE ≤ sh.data.length) {d : RowNsData} {ns : Bytes} {row : Nat}
-    (hns : ns.length = NS_SIZE) (hp : ProofOK d.proof) (hcont : dah.rowContains? H row ns = some true)
-    (h : rowVerify H d ns row dah = .ok ()) :
-    ∃ shares, e.axis? .row row = some shares ∧
-      d.shares.map Share.data = (shares.filter (fun sh => sh.ns == ns)).map Share.data := by
-  have hrow : row < e.width := by
-    obtain ⟨hrl, _, _, _⟩ := dah_ofEds_roots hd
-    unfold Dah.rowContains? Dah.rowRoot? at hcont
-    cases hg : dah.rowRoots[row]? with
-    | none => simp [hg] at hcont
-    | some r => have := (List.getElem?_eq_some_iff.mp hg).1; omega
-  obtain ⟨shares, root, hax, hroot?, hne, hcr, al, hs, _⟩ := row_facts hd hsz hrow
-  refine ⟨shares, hax, ?_⟩
-  have hc : root.contains H ns = true := by
-    unfold Dah.rowContains? at hcont
-    rw [hroot?] at hcont
-    simpa using hcont
-  unfold rowVerify at h
-  split at h
-  · cases h
-  · rename_i hw
-    have hwpt : (d.shares.map Share.data).isEmpty = d.proof.isAbsence := by
-      cases h1 : d.shares.isEmpty <;> cases h2 : d.proof.isAbsence <;> simp [h1, h2] at hw ⊢ <;>
-        (cases hh : d.shares <;> simp [hh] at h1 ⊢)
-    simp only [hroot?] at h
-    cases hv : luminaVerifyCompleteNamespace H d.proof root (d.shares.map Share.data) ns with
-    | error er => simp [hv] at h
-    | ok u =>
-      have hv' := luminaVCN_ok hv
-      obtain ⟨w1, w2, w3, w4⟩ := hp
-      have := vcn_sound hk (by simpa using hne) al hs hcr w1 w2 w3 w4 hns hwpt hc hv'
-      rw [List.filter_map] at this
-      have hfil : ∀ sh ∈ shares.filter ((fun x => x.minNs == ns) ∘ Share.leafHash H), sh.ns = ns := by
-        intro sh hsh
-        have := (List.mem_filter.mp hsh).2
-        simpa [Share.leafHash, hashLeaf] using this
-      have hd := map_hashLeaf_data hk hfil (by rw [this, List.map_map])
-      rw [← hd]
-      congr 1
-
-
 /-- the data bytes of the shares of namespace `ns` in row `r` of the square (model side) -/
 def rowNsData (e : Eds) (ns : Bytes) (r : Nat) : List Bytes :=
   match e.axis? .row r with
   | some shares => (shares.filter (fun sh => sh.ns == ns)).map Share.data
   | none => []
-
-theorem verifyRows_sound {H : HashFn} (hk : HashOK H) {e : Eds} {dah : Dah} (hd : Dah.ofEds H e = .ok dah)
-    (hsz : ∀ sh ∈ e.shares, NS_SIZE ≤ sh.data.length) {ns : Bytes} (hns : ns.length = NS_SIZE) :
-    ∀ (rows : List RowNsData) (idxs : List Nat), rows.length = idxs.length →
-      (∀ r ∈ idxs, dah.rowContains? H r ns = some true) → (∀ d ∈ rows, ProofOK d.proof) →
-      verifyRows H ns dah rows idxs = .ok () →
-      rows.map (fun d => d.shares.map Share.data) = idxs.map (rowNsData e ns) := by
-  intro rows
-  induction rows with
-  | nil => intro idxs hl _ _ _; cases idxs with
-    | nil => rfl
-    | cons a t => simp at hl
-  | cons d ds ih =>
-    intro idxs hl hc hp h
-    cases idxs with
-    | nil => simp at hl
-    | cons r rs =>
-      unfold verifyRows at h
-      cases hv : rowVerify H d ns r dah with
-      | error er => simp [hv] at h
-      | ok u =>
-        simp only [hv] at h
-        obtain ⟨shares, hax, hdat⟩ := rowVerify_sound hk hd hsz hns (hp d (by simp)) (hc r (by simp)) hv
-        simp only [List.map_cons, List.cons.injEq]
-        refine ⟨?_, ih rs (by simpa using hl) (fun x hx => hc x (by simp [hx])) (fun x hx => hp x (by simp [hx])) h⟩
-        unfold rowNsData; rw [hax]; exact hdat
-
-/-- **model-level soundness of `NamespaceData::verify`** -/
-theorem verify_sound_model {H : HashFn} (hk : HashOK H) {e : Eds} {dah : Dah} (hd : Dah.ofEds H e = .ok dah)
-    (hsz : ∀ sh ∈ e.shares, NS_SIZE ≤ sh.data.length) {ns : Bytes} (hns : ns.length = NS_SIZE)
-    {rows : List RowNsData} (hp : ∀ d ∈ rows, ProofOK d.proof) (h : verify H rows ns dah = .ok ()) :
-    rows.map (fun d => d.shares.map Share.data) =
-      ((List.range e.width).filter (fun r => (dah.rowContains? H r ns).getD false)).map (rowNsData e ns) := by
-  obtain ⟨hrl, _, _, _⟩ := dah_ofEds_roots hd
-  unfold verify at h
-  split at h
-  · cases h
-  · split at h
-    · cases h
-    · simp only [hrl] at h
-      by_cases hlen : (List.filter (fun r => (dah.rowContains? H r ns).getD false) (List.range e.width)).length = rows.length
-      · simp only [hlen, ne_eq, not_true_eq_false, ↓reduceIte] at h
-        refine verifyRows_sound hk hd hsz hns rows _ hlen.symm ?_ hp h
-        intro r hr
-        have := (List.mem_filter.mp hr).2
-        cases hc : dah.rowContains? H r ns with
-        | none => simp [hc] at this
-        | some b => simp [hc] at this; rw [this]
-      · simp [hlen] at h
 
 open Lumina.Spec.C06 (ltBytes leBytes nsAt rowShares rowCovers expected)
 
@@ -285,32 +135,6 @@ theorem rowShares_eq {e : Eds} (hsq : SquareShape e) {row : Nat} (hrow : row < e
     symm
     rw [List.getElem?_eq_none_iff]; simp; omega
 
-theorem rowCovers_eq {H : HashFn} (hk : HashOK H) {e : Eds} (hsq : SquareShape e) {dah : Dah}
-    (hd : Dah.ofEds H e = .ok dah) {row : Nat} (hrow : row < e.width) {ns : Bytes} (hns : ns.length = NS_SIZE) :
-    rowCovers e.width (rawSquare e) row ns = (dah.rowContains? H row ns).getD false := by
-  obtain ⟨shares, root, hax, hroot?, hne, hcr, al, hs, _⟩ := row_facts hd hsq.size hrow
-  have hcc := contains_char hk (by simpa using hne) al hs hcr hns
-  unfold Dah.rowContains?
-  rw [hroot?]
-  simp only [Option.map_some, Option.getD_some]
-  rw [Bool.eq_iff_iff, hcc]
-  unfold rowCovers
-  rw [rowShares_eq hsq hrow hax]
-  simp only [List.map_map, Bool.and_eq_true, Bool.or_eq_true, List.any_eq_true, List.all_eq_true, List.mem_map,
-    Function.comp_apply, leBytes_eq, beq_iff_eq, bne_iff_ne, ne_eq, specParity_eq, Share.leafHash, hashLeaf,
-    forall_exists_index, and_imp, forall_apply_eq_imp_iff₂]
-  constructor
-  · rintro ⟨⟨x, ⟨a, ha, rfl⟩, h1⟩, h2⟩
-    refine ⟨⟨_, ⟨a, ha, rfl⟩, h1⟩, ?_⟩
-    rcases h2 with h2 | ⟨x, ⟨b, hb, rfl⟩, h3, h4⟩
-    · exact Or.inl h2
-    · exact Or.inr ⟨_, ⟨b, hb, rfl⟩, h3, h4⟩
-  · rintro ⟨⟨x, ⟨a, ha, rfl⟩, h1⟩, h2⟩
-    refine ⟨⟨_, ⟨a, ha, rfl⟩, h1⟩, ?_⟩
-    rcases h2 with h2 | ⟨x, ⟨b, hb, rfl⟩, h3, h4⟩
-    · exact Or.inl h2
-    · exact Or.inr ⟨_, ⟨b, hb, rfl⟩, h3, h4⟩
-
 theorem filterMap_ite {α β} (p : α → Bool) (g : α → β) : ∀ (l : List α),
     l.filterMap (fun r => if p r then some (g r) else none) = (l.filter p).map g := by
   intro l
@@ -321,34 +145,6 @@ theorem filterMap_ite {α β} (p : α → Bool) (g : α → β) : ∀ (l : List 
     · simp [List.filterMap_cons, h, ih]
     · have h' : p a = false := by simpa using h
       simp [List.filterMap_cons, h', ih]
-
-/-- the spec's expected answer, computed from the model's rows -/
-theorem expected_eq' {H : HashFn} (hk : HashOK H) {e : Eds} (hsq : SquareShape e) {dah : Dah}
-    (hd : Dah.ofEds H e = .ok dah) {ns : Bytes} (hns : ns.length = NS_SIZE) :
-    expected e.width (rawSquare e) ns =
-      ((List.range e.width).filter (fun r => (dah.rowContains? H r ns).getD false)).map (fun r => (r, rowNsData e ns r)) := by
-  unfold expected
-  rw [filterMap_ite (fun r => rowCovers e.width (rawSquare e) r ns)
-    (fun r => (r, ((rowShares e.width (rawSquare e) r).filter (fun p => p.1 == ns)).map Prod.snd))]
-  have hf : (List.range e.width).filter (fun r => rowCovers e.width (rawSquare e) r ns) =
-      (List.range e.width).filter (fun r => (dah.rowContains? H r ns).getD false) := by
-    apply List.filter_congr
-    intro r hr
-    exact rowCovers_eq hk hsq hd (List.mem_range.mp hr) hns
-  rw [hf]
-  apply List.map_congr_left
-  intro r hr
-  have hr' : r < e.width := List.mem_range.mp (List.mem_filter.mp hr).1
-  obtain ⟨shares, _, hax, _⟩ := row_facts hd hsq.size hr'
-  unfold rowNsData
-  rw [hax, rowShares_eq hsq hr' hax, List.filter_map, List.map_map]
-  rfl
-
-theorem expected_eq {H : HashFn} (hk : HashOK H) {e : Eds} (hsq : SquareShape e) {dah : Dah}
-    (hd : Dah.ofEds H e = .ok dah) {ns : Bytes} (hns : ns.length = NS_SIZE) :
-    (expected e.width (rawSquare e) ns).map Prod.snd =
-      ((List.range e.width).filter (fun r => (dah.rowContains? H r ns).getD false)).map (rowNsData e ns) := by
-  rw [expected_eq' hk hsq hd hns, List.map_map]; rfl
 
 /-- on a namespace-sorted row the scan of `get_namespace_data` is the filter -/
 theorem scanRow_eq_filter (ns : Bytes) : ∀ (l : List Share), (l.map Share.ns).Pairwise (fun a b => leB a b = true) →
@@ -441,8 +237,8 @@ theorem getNamespaceDataAux_data {H : HashFn} {e : Eds} {dah : Dah} {ns : Bytes}
 
 /-! ## Relative collision-freeness (audit repair)
 
-`HashOK` (injective with 32-byte output) is contradictory; the lemmas above that take it are vacuous and are kept only
-until every dependent file is ported.  The versions below assume collision-freeness on a set `S` of inputs that contains
+The former hypothesis `HashOK` (injective with 32-byte output) was contradictory; the lemmas that took it are removed
+(audit item X1).  The lemmas below assume collision-freeness on a set `S` of inputs that contains
 the byte strings hashed for the square's trees (`edsInputs`) and by the verifier (`vcnInputs`). -/
 
 /-- the inputs hashed by `NamespaceData::verify` over the given rows -/
